@@ -182,9 +182,10 @@ func c29Nested(r *findings.Run) {
 	}
 	dir := tablesDir()
 	small, _ := jsonSchedFile(dir, 5, -1)
-	sizes, procsList := []int{200, 1000}, []int{1, 4}
+	// 9000 lines = 141 batches: more than the 128 output tokens of one source, so every bounded queue of the pipeline fills up
+	sizes, procsList := []int{200, 1000, 9000}, []int{1, 4}
 	if r.Thorough() {
-		sizes, procsList = []int{200, 1000, 2000}, []int{1, 2, 4}
+		sizes, procsList = []int{200, 1000, 2000, 3000, 9000, 20000}, []int{1, 2, 4}
 	}
 	for _, lines := range sizes {
 		left, _ := jsonSchedFile(dir, lines, -1)
@@ -275,17 +276,23 @@ func c29Races(r *findings.Run) {
 		q(fmt.Sprintf("SELECT a.i, b.i FROM %s a LOOKUP JOIN (SELECT * FROM %s c LIMIT 1) b ON a.i >= b.i", small, mid), "json"),
 		q(fmt.Sprintf("SELECT DISTINCT a.s FROM %s a JOIN %s b ON a.i = b.i WHERE b.s ~ '^r[0-9]$'", small, small), "json"),
 		q(fmt.Sprintf("SELECT a.i FROM %s a WHERE a.i IN (SELECT b.i FROM %s b WHERE b.s LIKE 'r1%%') ORDER BY a.i LIMIT 5", small, mid), "stream_native"),
-		// stdin can be read once per process (the real binary runs one query per process), so one stdin scenario only
-		{Args: sqlArgs("SELECT * FROM stdin.json t LIMIT 70", "json", true), Stdin: big},
 		q(fmt.Sprintf("SELECT COUNT(*) AS c FROM %s t", small), "json"),
+		// stdin can be read once per process (the real binary runs one query per process), so one stdin scenario only,
+		// and it is the LAST request: the reader goroutine abandoned by the LIMIT keeps reading descriptor 0, which in
+		// this in-process worker becomes the request pipe again afterwards (it would swallow the next request)
+		{Args: sqlArgs("SELECT * FROM stdin.json t LIMIT 70", "json", true), Stdin: big},
 	}
 	for _, procs := range []int{1, 2, 4, 16} {
 		res, stderr, exit, hang := runner.RunBatch("vrun-race", reqs, 10*time.Minute, fmt.Sprintf("GOMAXPROCS=%d", procs), "GORACE=halt_on_error=0")
 		r.Eval(int64(len(res)))
 		r.Sum("race_pass_queries", int64(len(res)))
 		if hang {
-			r.Violation("C29/race-pass/hang", fmt.Sprintf("GOMAXPROCS=%d: the free-running batch did not finish within 10 minutes (after %d of %d queries)", procs, len(res), len(reqs)), map[string]interface{}{"gomaxprocs": procs, "completed": len(res)})
-			continue
+			hung := ""
+			if len(res) < len(reqs) {
+				hung = reqs[len(res)].Args[0]
+			}
+			r.Violation("C29/race-pass/hang", fmt.Sprintf("GOMAXPROCS=%d: the free-running batch did not finish within 10 minutes (after %d of %d queries; running: %s)", procs, len(res), len(reqs), hung), map[string]interface{}{"gomaxprocs": procs, "completed": len(res), "query_running": hung})
+			return // every further pool size would cost another 10 minutes
 		}
 		for i, x := range res {
 			// vacuity guard: every scenario must really execute (only the file with the malformed line may fail)
@@ -319,7 +326,7 @@ func c29Races(r *findings.Run) {
 func init() {
 	register("C29", "model_checking", func(r *findings.Run) {
 		defer cleanupTables()
-		r.Rule = "termination, exhaustively over schedules: (a) the real JSON reader/worker-pool/reorder pipeline under the H2 controller: every delivery order of the parsed batches (pools of 1, 2, 4 workers) x consumer stopping after record j in {1,64,65,last} x a malformed line in a later batch, plus 8400-line files (more batches than the 128-slot output channel) within a deviation bound, each followed by a plain JSON query in the same process (the pool is global); (b) the four join kinds under the H1 controller: every interleaving x consumer stopping after 1 or 2 outputs x a source failing at every position; Run must return. (c) nested use of the global parser pool: a JSON source re-run for every record of a 200/1000/2000-line JSON source (LOOKUP JOIN, IN-subquery) on the real binary with GOMAXPROCS 1, 2, 4 must finish. (d) data races: a separate free-running pass of 15 query scenarios (JSON scans with LIMIT/errors, joins with LIKE/~/~* in both branches, outer joins, lookup join over a LIMITed JSON source, IN-subquery, stdin) in a -race build with GOMAXPROCS 1,2,4,16; state = (scenario, schedule prefix)"
+		r.Rule = "termination, exhaustively over schedules: (a) the real JSON reader/worker-pool/reorder pipeline under the H2 controller: every delivery order of the parsed batches (pools of 1, 2, 4 workers) x consumer stopping after record j in {1,64,65,last} x a malformed line in a later batch, plus 8400-line files (more batches than the 128-slot output channel) within a deviation bound, each followed by a plain JSON query in the same process (the pool is global); (b) the four join kinds under the H1 controller: every interleaving x consumer stopping after 1 or 2 outputs x a source failing at every position; Run must return. (c) nested use of the global parser pool: a JSON source re-run for every record of a 200/1000/9000-line (thorough: also 2000/3000/20000) JSON source, the largest with more batches than one source's 128 output tokens, (LOOKUP JOIN, IN-subquery) on the real binary with GOMAXPROCS 1, 2, 4 must finish. (d) data races: a separate free-running pass of 15 query scenarios (JSON scans with LIMIT/errors, joins with LIKE/~/~* in both branches, outer joins, lookup join over a LIMITed JSON source, IN-subquery, stdin) in a -race build with GOMAXPROCS 1,2,4,16; state = (scenario, schedule prefix)"
 		r.Assume("a controlled execution that has not returned after 120 s is reported as stuck", "the race pass is NOT schedule-exhaustive: a cooperative controller's hand-offs hide races from the detector, so races are looked for in free-running executions only",
 			"hooks H1 and H2 report every step; one message/batch decision at a time")
 		r.Bound = map[string]interface{}{"json_sizes": []int{65, 129, 200, 321, 8400}, "json_worker_pools": []int{1, 2, 4}, "big_file_deviation_bound": r.Pick(0, 1), "join_events_per_side": 2, "race_pass_gomaxprocs": []int{1, 2, 4, 16}}
